@@ -15,7 +15,7 @@ CLAIMED = {
 
  "C05": ("dispatch-table agreement (token -> operator / evaluator arm), layering of productions over the call graph, CFG ordering of the SELECT pipeline, truth-table evaluation of the boolean comparator",
          "Static necessary conditions of single-table SELECT meaning: pipeline stages run filter->project->aggregate->sort->offset->limit and feed each other; each comparison token is evaluated with its own Go operator for ints and strings (sides normalised); two-character operators agree with the token table; OR/AND dispatch to ||/&& with both operands always evaluated; precedence layering OrCondition>AndCondition>Predicate with no upward call; the sort comparator is 'less' per type and negated exactly for DESC of the current key; LIMIT/OFFSET flags guard their own values; quoted text never becomes a keyword; projected rows get fresh storage.",
-         "Equality of results with a reference evaluator over all contents is not decided; operand sides are recognised through the evaluator's lhs/rhs naming.", "DESIGN.md §4 C05"),
+         "Equality of results with a reference evaluator over all contents is not decided.", "DESIGN.md §4 C05"),
  "C06": ("dispatch-table and value-agreement rules on the join arms; must-assign path rule on the join-type variable",
          "Static necessary conditions of join semantics: LEFT/RIGHT/INNER keywords map to their constants, the join type is assigned in every iteration, every storable type has an executor arm; in each arm left.Merge(right) matches the header order, padding rows have the width of the other side and the correct position, unmatched rows are appended on the !hasMatch edge of the preserved side's loop; unqualified duplicate names yield ErrFieldAmbiguous, qualified lookups compare column and table id, alias-or-name table ids; merged rows use fresh storage; AND/OR evaluate both operands so ambiguity is always reported.",
          "Multiset equality of results is not decided.", "DESIGN.md §4 C06"),
@@ -86,7 +86,7 @@ def main():
               "evidence_file": f"/verif/evidence/{i}.json",
               "replay_cmd_template": "bin/mkdbcheck -replay {path}",
               "engine": "mkdbcheck",
-              "level_claimed": {"category":"other","text":text,"design_ref":ref},
+              "level_claimed": {"category":"other","text":text+" Further necessary-condition clauses added after the seeded-change campaigns (sibling agreement, ownership, sentinel identity, iterator stability, operand-shape rules) are listed rule by rule in DESIGN.md §4 and in the evidence file.","design_ref":ref},
               "level_note": note,
               "technique": "static analysis: "+tech,
             })
